@@ -150,7 +150,8 @@ def describe(model, st, v, depth=0):
         cell = st.heap[v.addr]
         if cell.cls.startswith('<'):
             raise GiveUp("abstract record %s" % cell.cls)
-        return dict(object=cell.cls, attrs=dict((k, describe(model, st, x, depth + 1)) for k, x in cell.attrs.items()))
+        # `ref`: the same heap cell reached twice is the same native object (aliasing is part of the input)
+        return dict(object=cell.cls, ref=v.addr, attrs=dict((k, describe(model, st, x, depth + 1)) for k, x in cell.attrs.items()))
     if isinstance(v, ListRef):
         return dict(list=[describe(model, st, x, depth + 1) for x in st.heap[v.addr].items])
     if isinstance(v, DictRef):
@@ -159,6 +160,8 @@ def describe(model, st, v, depth=0):
         return dict(tuple=[describe(model, st, x, depth + 1) for x in v])
     if isinstance(v, Opaque):
         return dict(opaque=v.tag, text=str(v.info) if isinstance(v.info, str) else v.tag)
+    if type(v).__name__ == 'ClassVal':
+        return dict(classref=v.qualname)            # the class a classmethod is called on
     if isinstance(v, Unit):
         sc = _num(model, v.scale) if isinstance(v.scale, Sc) else v.scale
         return dict(unit=dict(name=v.name, scale=str(fractions.Fraction(sc)), dims=dict(v.dims)))
@@ -173,6 +176,16 @@ class RealMath(object):
     def __init__(self, model):
         self.model = model
         self.cache = {}
+        self.tight = None       # an inequality between reals evaluated with (nearly) equal sides: a floating-point boundary
+
+    def _cmp(self, t, a, b, op):
+        if not (isinstance(a, int) and isinstance(b, int)) and not isinstance(a, bool):
+            try:
+                if abs(float(a) - float(b)) <= 1e-9 * (1 + abs(float(a)) + abs(float(b))) and a != b or (a == b and not (isinstance(a, int) and isinstance(b, int))):
+                    self.tight = self.tight or str(t)[:160]
+            except (TypeError, ValueError, OverflowError):
+                pass
+        return op(a, b)
 
     def num(self, t):
         k = t.get_id()
@@ -234,14 +247,15 @@ class RealMath(object):
             return math.floor(self.num(ch[0]))
         if k == K.Z3_OP_ITE:
             return self.num(ch[1]) if self.num(ch[0]) else self.num(ch[2])
+        import operator
         if k == K.Z3_OP_LE:
-            return self.num(ch[0]) <= self.num(ch[1])
+            return self._cmp(t, self.num(ch[0]), self.num(ch[1]), operator.le)
         if k == K.Z3_OP_LT:
-            return self.num(ch[0]) < self.num(ch[1])
+            return self._cmp(t, self.num(ch[0]), self.num(ch[1]), operator.lt)
         if k == K.Z3_OP_GE:
-            return self.num(ch[0]) >= self.num(ch[1])
+            return self._cmp(t, self.num(ch[0]), self.num(ch[1]), operator.ge)
         if k == K.Z3_OP_GT:
-            return self.num(ch[0]) > self.num(ch[1])
+            return self._cmp(t, self.num(ch[0]), self.num(ch[1]), operator.gt)
         if k == K.Z3_OP_EQ:
             a, b = self.num(ch[0]), self.num(ch[1])
             if isinstance(a, float) or isinstance(b, float):
@@ -467,11 +481,15 @@ def _astropy_unit(d):
         try:
             cand = u.Unit(nm)
             dec = cand.decompose()
-            if abs(dec.scale - scale) <= 1e-12 * abs(scale) and (dec / scale).is_equivalent(base) and cand.is_equivalent(base):
+            if abs(dec.scale - scale) <= 1e-12 * abs(scale) and cand.is_equivalent(base):
                 return cand
         except Exception:
             pass
     return u.Unit(scale * base)
+
+
+_BUILD_MEMO = {}
+NAME_ATTRS = ('_model_names', '_names', 'model_name', 'model_names', 'names')
 
 
 def build(x):
@@ -498,10 +516,20 @@ def build(x):
     if 'object' in x:
         mod, _, cls = x['object'].rpartition('.')
         klass = getattr(importlib.import_module(mod), cls)
+        if x.get('ref') is not None and ('obj', x['ref']) in _BUILD_MEMO:
+            return _BUILD_MEMO[('obj', x['ref'])]
         obj = klass.__new__(klass)
+        if x.get('ref') is not None:
+            _BUILD_MEMO[('obj', x['ref'])] = obj
         for k, v in x['attrs'].items():
-            object.__setattr__(obj, k, build(v))
+            val = build(v)
+            if k in NAME_ATTRS and isinstance(val, np.ndarray) and val.dtype.kind in 'iu':
+                val = np.array(['m%d' % t for t in val.ravel()], dtype='U12').reshape(val.shape)     # names are integer codes in the verifier
+            object.__setattr__(obj, k, val)
         return obj
+    if 'classref' in x:
+        mod, _, cls = x['classref'].rpartition('.')
+        return getattr(importlib.import_module(mod), cls)
     if 'list' in x:
         return [build(v) for v in x['list']]
     if 'tuple' in x:
@@ -528,8 +556,19 @@ def _tofloat(d):
 def flat_numbers(x, out, strict_units=True):
     """numbers of a REAL python value, in the order `flat_predicted` lists those of a description"""
     import numpy as np
-    if x is None or isinstance(x, str):
+    if isinstance(x, (str, bytes)):
+        t = (x.decode() if isinstance(x, bytes) else x).strip()
+        if t[:1] == 'm' and t[1:].lstrip('-').isdigit():
+            out.append(float(int(t[1:])))       # a name built from the verifier's integer code (see build)
         return out
+    if x is None or isinstance(x, type):
+        return out
+    try:
+        from astropy.units import UnitBase
+        if isinstance(x, UnitBase):
+            return out              # a unit passed as an argument carries no numbers
+    except ImportError:
+        pass
     if hasattr(x, 'unit') and hasattr(x, 'value'):
         v = x.to_value(x.unit.si.bases and x.unit.decompose().bases and x.unit) if False else x.value
         scale = float(x.unit.decompose().scale) if hasattr(x.unit, 'decompose') else 1.
@@ -546,6 +585,11 @@ def flat_numbers(x, out, strict_units=True):
         if x.dtype.kind in 'fiub':
             for t in np.ravel(x):
                 out.append(float(t))
+        elif x.dtype.kind in 'US':
+            for t in np.ravel(x):           # names built from integer codes ('m<code>', see build)
+                t = t.decode() if isinstance(t, bytes) else str(t)
+                t = t.strip()
+                out.append(float(int(t[1:])) if t[:1] == 'm' and t[1:].lstrip('-').isdigit() else float('nan'))
         return out
     if isinstance(x, (list, tuple)):
         for v in x:
@@ -607,7 +651,13 @@ def replay_native(cex, rtol=1e-6, atol=1e-9):
     import copy
     import numpy as np
     name = cex['function']
+    _BUILD_MEMO.clear()
     inputs = dict((k, build(v)) for k, v in cex['inputs'].items())
+    for k, v in list(inputs.items()):
+        if 'name' in k and isinstance(v, np.ndarray) and v.dtype.kind in 'iu':
+            inputs[k] = np.array(['m%d' % t for t in v.ravel()], dtype='U12').reshape(v.shape)
+        elif 'name' in k and isinstance(v, int) and not isinstance(v, bool):
+            inputs[k] = 'm%d' % v
     mod, _, fn = name.rpartition('.')
     try:
         target = getattr(importlib.import_module(mod), fn)
@@ -631,12 +681,21 @@ def replay_native(cex, rtol=1e-6, atol=1e-9):
             raise GiveUp("do not know how to call %s" % name)
     status, exc, result = 'return', None, None
     import io
+    import os
+    import shutil
+    import tempfile
     import contextlib
+    # (a function that writes files does so in a scratch directory which is removed straight afterwards)
+    here, scratch = os.getcwd(), tempfile.mkdtemp(prefix='sedvc_native_', dir=os.environ.get('SEDVC_SCRATCH') or None)
     try:
+        os.chdir(scratch)
         with contextlib.redirect_stdout(io.StringIO()), np.errstate(all='ignore'):
             result = target(**call_args)
     except Exception as e:       # noqa
         status, exc = 'raise', type(e).__name__
+    finally:
+        os.chdir(here)
+        shutil.rmtree(scratch, ignore_errors=True)
     pred = cex['predicted']
     if pred['status'] == 'undefined':
         nums = []
@@ -648,7 +707,13 @@ def replay_native(cex, rtol=1e-6, atol=1e-9):
         return dict(agrees=bad, detail=('the real function raised %s' % exc) if status == 'raise' else ('the real function returned nan/inf' if bad else 'the real function returned finite values'),
                     native=dict(status=status, exc=exc))
     if status != pred['status']:
-        return dict(agrees=False, detail='the real function %s, the verifier predicted %s' % ('raised ' + str(exc) if status == 'raise' else 'returned', pred['status']))
+        got = []
+        if status == 'return':
+            flat_numbers(result, got)
+            for k in sorted(inputs):
+                flat_numbers(inputs[k], got)
+        return dict(agrees=False, detail='the real function %s, the verifier predicted %s' % ('raised ' + str(exc) if status == 'raise' else 'returned', pred['status']),
+                    native=dict(status=status, exc=exc), all_numbers=got)
     if status == 'raise':
         return dict(agrees=(exc == pred['exc']) or pred['exc'] in (None, 'Exception'), detail='raised %s' % exc, native=dict(status='raise', exc=exc))
     got, want = [], []
@@ -658,11 +723,12 @@ def replay_native(cex, rtol=1e-6, atol=1e-9):
         flat_numbers(inputs[k], got)
         flat_predicted(pred['args_after'].get(k), want)
     if len(got) != len(want):
-        return dict(agrees=False, detail='outputs have another shape than predicted (%d numbers, predicted %d)' % (len(got), len(want)))
+        return dict(agrees=False, detail='outputs have another shape than predicted (%d numbers, predicted %d)' % (len(got), len(want)),
+                    native=dict(status='return', numbers=got[:50]), all_numbers=got)
     worst = 0.
     for g, w in zip(got, want):
         if math.isnan(g) or math.isinf(g):
             return dict(agrees=False, detail='the real function produced nan/inf (outside A-REAL)')
         worst = max(worst, abs(g - w) / (atol / rtol + abs(w)))
     return dict(agrees=worst <= rtol, detail='largest relative deviation between the real outputs and the verifier\'s counter-model: %.2e' % worst,
-                native=dict(status='return', numbers=got[:50]))
+                native=dict(status='return', numbers=got[:50]), all_numbers=got)
